@@ -1,4 +1,5 @@
 import EncodingRs.Lemmas.OneShot
+import EncodingRs.Lemmas.OneShotCap
 /-!
 # C11 — the one-shot convenience API equals the streaming API and borrows only when promised
 
@@ -789,6 +790,289 @@ example : decode .utf8 [0xFF, 0xFE, 0x41, 0x00] 8 [] = some (⟨[0x41], false, f
 example : decodeWithBomRemoval .utf8 [0xFF, 0xFE, 0x41] 8 [] = some ⟨[0xFFFD, 0xFFFD, 0x41], true, false⟩ := by
   decide +kernel
 example : decodeWithBomRemoval .utf16Be [0xFE, 0xFF, 0x00, 0x41] 8 [] = some ⟨[0x41], false, false⟩ := by decide +kernel
+
+/-! ### (e) the capacity arithmetic executed as written: `oneshot_no_unreachable`, termination for
+every admissible stop policy (`Model.OneShot.…Cap`, `Lemmas/OneShotCap.lean`)
+
+`Gen.MaxLen.usizeMax = 2^64 - 1`.  `slack` is what the allocator grants beyond the capacity asked
+for (`with_capacity` / `reserve` promise "at least"); every statement holds for every slack. -/
+
+open EncodingRs.Lemmas.OneShotCap EncodingRs.Lemmas.MaxLenVariant EncodingRs.Gen.MaxLen
+
+theorem oneShot_validUpTo_le (v : Gen.Variant) (bytes : List Nat) : OneShot.validUpTo v bytes ≤ bytes.length := by
+  by_cases h8 : v = .utf8
+  · subst h8
+    simp only [OneShot.validUpTo, if_true]
+    exact EncodingRs.Lemmas.Valid.validUpTo_le bytes
+  · rw [validUpTo_eq_upTo v h8]
+    exact EncodingRs.Thm.C19.upTo_le _ _
+
+/-- **`oneshot_no_unreachable`** (full strength).  In
+`decode_without_bom_handling_and_without_replacement` the arm `DecoderResult::OutputFull => unreachable!()`
+is never taken: for each of the 40 encodings, every input, every slack of the allocator and EVERY stop
+policy of the single `decode_to_string_without_replacement` call that is admissible for the spare
+capacity the code computed (`valid_up_to + max_utf8_buffer_length_without_replacement(len - valid_up_to)`
+by `checked_add`, minus the copied prefix).  By C07 (`variant_raw_sufficient`) for the fresh decoder's
+state (`Reach.init`). -/
+theorem oneshot_no_unreachable (v : Gen.Variant) (bytes : List Nat) (slack : Nat) (budget : Budget)
+    (hb : ∀ b ∈ bytes, b < 256) (hadm : NoReplAdmissible v bytes slack budget) :
+    decodeWithoutBomHandlingAndWithoutReplacementCap v bytes budget ≠ .ok .unreachable := by
+  intro h
+  unfold decodeWithoutBomHandlingAndWithoutReplacementCap at h
+  by_cases h8 : v = .utf8
+  · simp only [h8, if_true] at h
+    split at h <;> cases h
+  · simp only [h8, if_false] at h
+    by_cases hbo : isPotentiallyBorrowable v = true
+    · simp only [hbo, if_true] at h
+      by_cases hn : validUpToNoRepl v bytes = bytes.length
+      · simp only [hn, if_true] at h; cases h
+      · simp only [hn, if_false] at h
+        cases hc : noReplCapacity v bytes with
+        | none => rw [hc] at h; cases h
+        | some c =>
+          rw [hc] at h
+          simp only at h
+          have hnf := noRepl_call_not_full v bytes slack budget c hb hc hadm
+          have hin : noReplInput v bytes = bytes.drop (validUpToNoRepl v bytes) := by simp [noReplInput, hbo]
+          rw [hin] at hnf
+          split at h
+          · cases h
+          · cases h
+          · rename_i hfull; exact hnf hfull
+    · simp only [hbo, Bool.false_eq_true, if_false] at h
+      cases hc : noReplCapacity v bytes with
+      | none => rw [hc] at h; cases h
+      | some c =>
+        rw [hc] at h
+        simp only at h
+        have hnf := noRepl_call_not_full v bytes slack budget c hb hc hadm
+        have hin : noReplInput v bytes = bytes := by simp [noReplInput, hbo]
+        rw [hin] at hnf
+        split at h
+        · cases h
+        · cases h
+        · rename_i hfull; exact hnf hfull
+
+/-- the precondition on the length: the `.unwrap()` of the capacity panics only if
+`3 * len + 13 > usize::MAX` (`len > 6148914691236517200`) -/
+theorem without_replacement_panic_length (v : Gen.Variant) (bytes : List Nat) (budget : Budget)
+    (h : decodeWithoutBomHandlingAndWithoutReplacementCap v bytes budget = .panic) :
+    usizeMax < 3 * bytes.length + 13 := by
+  apply Nat.lt_of_not_le
+  intro hlen
+  have hle : validUpToNoRepl v bytes ≤ bytes.length := by
+    by_cases h8 : v = .utf8
+    · subst h8
+      show (if Gen.Variant.utf8 = .iso2022Jp then _ else asciiValidUpTo bytes) ≤ _
+      simp only [reduceCtorEq, if_false]
+      rw [EncodingRs.Thm.C19.asciiValidUpTo_eq]; exact EncodingRs.Thm.C19.upTo_le _ _
+    · rw [validUpToNoRepl_eq v h8]; exact oneShot_validUpTo_le v bytes
+  obtain ⟨c, hc⟩ := noReplCapacity_some v bytes hlen hle
+  unfold decodeWithoutBomHandlingAndWithoutReplacementCap at h
+  rw [hc] at h
+  simp only at h
+  by_cases h8 : v = .utf8
+  · simp only [h8, if_true] at h
+    split at h <;> cases h
+  · simp only [h8, if_false] at h
+    by_cases hbo : isPotentiallyBorrowable v = true
+    · simp only [hbo, if_true] at h
+      by_cases hn : validUpToNoRepl v bytes = bytes.length
+      · simp only [hn, if_true] at h; cases h
+      · simp only [hn, if_false] at h
+        split at h <;> cases h
+    · simp only [hbo, Bool.false_eq_true, if_false] at h
+      split at h <;> cases h
+
+/-- and it does panic there: Big5, no validated prefix, `2 + 2 * len` overflows -/
+example : noReplCapacity .big5 (List.replicate 3 0x81) = some 8 := by decide +kernel
+example : variantMax .utf8NoRepl .big5 (none : Option Nat) (usizeMax / 2) = none := by decide +kernel
+
+/-- **the without-replacement form, total**: for lengths up to `(usize::MAX - 13) / 3` and every
+admissible stop policy it returns `None` / `Some`, `None` exactly when the stream has a malformed
+sequence, `Some` of the streaming text otherwise -/
+theorem without_replacement_total (v : Gen.Variant) (bytes : List Nat) (slack : Nat) (budget : Budget)
+    (hb : ∀ b ∈ bytes, b < 256) (hlen : 3 * bytes.length + 13 ≤ usizeMax)
+    (hadm : NoReplAdmissible v bytes slack budget) :
+    ∃ r, decodeWithoutBomHandlingAndWithoutReplacementCap v bytes budget = .ok (.ret r) ∧
+      (r = none ↔ streamErr v bytes = true) ∧ (∀ t b, r = some (t, b) → t = streamText v bytes) := by
+  cases h : decodeWithoutBomHandlingAndWithoutReplacementCap v bytes budget with
+  | panic => have := without_replacement_panic_length v bytes budget h; omega
+  | diverges =>
+    exfalso
+    unfold decodeWithoutBomHandlingAndWithoutReplacementCap at h
+    by_cases h8 : v = .utf8
+    · simp only [h8, if_true] at h
+      split at h <;> cases h
+    · simp only [h8, if_false] at h
+      by_cases hbo : isPotentiallyBorrowable v = true
+      · simp only [hbo, if_true] at h
+        by_cases hn : validUpToNoRepl v bytes = bytes.length
+        · simp only [hn, if_true] at h; cases h
+        · simp only [hn, if_false] at h
+          cases hc : noReplCapacity v bytes with
+          | none => rw [hc] at h; cases h
+          | some c => rw [hc] at h; simp only at h; split at h <;> cases h
+      · simp only [hbo, Bool.false_eq_true, if_false] at h
+        cases hc : noReplCapacity v bytes with
+        | none => rw [hc] at h; cases h
+        | some c => rw [hc] at h; simp only at h; split at h <;> cases h
+  | ok x =>
+    cases x with
+    | unreachable => exact absurd h (oneshot_no_unreachable v bytes slack budget hb hadm)
+    | ret r =>
+      have h' := noReplCap_ok v bytes budget _ h
+      obtain ⟨k1, k2⟩ := without_replacement_none_iff v bytes budget r h'
+      exact ⟨r, rfl, k1, fun t b hh => (k2 t b hh).1⟩
+
+/-- **termination of `decode_without_bom_handling` for EVERY admissible stop policy**, with a fuel
+bound: if every inner raw call of every round is admissible for the capacity in force
+(`DecodeAdmissible`: first `with_capacity(checked_min(next_power_of_two(valid_up_to +
+max_…_without_replacement(rem)), valid_up_to + max_utf8_buffer_length(rem)))`, then after an
+`OutputFull` round `reserve(max_utf8_buffer_length(remaining))` in the decoder's current state), the
+model with fuel `≥ 10 * len + 10` does not run out of fuel: the grow loop makes at most two rounds
+(C07: the reserved capacity is sufficient for the rest — "we should come here at most once"), and each
+round's replacement loop makes at most `10 * remaining + 10` inner calls (C08: a `Malformed` return
+consumed input or lowered the rank ≤ 9; holds for any stop policy). -/
+theorem decode_without_bom_handling_cap_returns (v : Gen.Variant) (bytes : List Nat) (fuel : Nat)
+    (slack : List Nat) (bs : List (List Budget)) (hb : ∀ b ∈ bytes, b < 256)
+    (hfuel : 10 * bytes.length + 10 ≤ fuel) (hadm : DecodeAdmissible v bytes fuel slack bs) :
+    decodeWithoutBomHandlingCap v bytes fuel slack bs ≠ .diverges := by
+  intro h
+  unfold decodeWithoutBomHandlingCap at h
+  unfold DecodeAdmissible at hadm
+  by_cases hbo : isPotentiallyBorrowable v = true
+  · simp only [hbo, if_true] at h hadm
+    by_cases hn : OneShot.validUpTo v bytes = bytes.length
+    · simp only [hn, if_true] at h; cases h
+    · simp only [hn, if_false] at h
+      cases hc : firstCapacity v (OneShot.validUpTo v bytes) (bytes.length - OneShot.validUpTo v bytes) with
+      | none => rw [hc] at h; cases h
+      | some c =>
+        rw [hc] at h
+        simp only at h
+        have hb' : ∀ b ∈ bytes.drop (OneShot.validUpTo v bytes), b < 256 :=
+          fun b hb' => hb b (List.mem_of_mem_drop hb')
+        have hl : (bytes.drop (OneShot.validUpTo v bytes)).length ≤ bytes.length := by
+          rw [List.length_drop]; omega
+        have := growLoopCap_returns v fuel fuel (famOfVariant v).init (bytes.drop (OneShot.validUpTo v bytes))
+          (c + slack.headD 0 - OneShot.validUpTo v bytes) slack.tail bs Reach.init hb' (by omega) (by omega)
+          (hadm c hc)
+        cases hg : growLoopCap v fuel fuel (famOfVariant v).init (bytes.drop (OneShot.validUpTo v bytes))
+          (c + slack.headD 0 - OneShot.validUpTo v bytes) slack.tail bs with
+        | diverges => exact this hg
+        | panic => rw [hg] at h; cases h
+        | ok p => rw [hg] at h; cases h
+  · simp only [hbo, Bool.false_eq_true, if_false] at h hadm
+    cases hc : firstCapacityNB v bytes.length with
+    | none => rw [hc] at h; cases h
+    | some c =>
+      rw [hc] at h
+      simp only at h
+      have := growLoopCap_returns v fuel fuel (famOfVariant v).init bytes (c + slack.headD 0) slack.tail bs
+        Reach.init hb (by omega) (by omega) (hadm c hc)
+      cases hg : growLoopCap v fuel fuel (famOfVariant v).init bytes (c + slack.headD 0) slack.tail bs with
+      | diverges => exact this hg
+      | panic => rw [hg] at h; cases h
+      | ok p => rw [hg] at h; cases h
+
+/-- the `.unwrap()`s of `decode_without_bom_handling` (`checked_min(…).unwrap()`, `needed.unwrap()`)
+panic only if `3 * len + 13 > usize::MAX`, whatever the stop policy -/
+theorem decode_without_bom_handling_panic_length (v : Gen.Variant) (bytes : List Nat) (fuel : Nat)
+    (slack : List Nat) (bs : List (List Budget)) (hb : ∀ b ∈ bytes, b < 256)
+    (h : decodeWithoutBomHandlingCap v bytes fuel slack bs = .panic) : usizeMax < 3 * bytes.length + 13 := by
+  apply Nat.lt_of_not_le
+  intro hlen
+  have hle := oneShot_validUpTo_le v bytes
+  unfold decodeWithoutBomHandlingCap at h
+  by_cases hbo : isPotentiallyBorrowable v = true
+  · simp only [hbo, if_true] at h
+    by_cases hn : OneShot.validUpTo v bytes = bytes.length
+    · simp only [hn, if_true] at h; cases h
+    · simp only [hn, if_false] at h
+      obtain ⟨c, hc⟩ := firstCapacity_some v (OneShot.validUpTo v bytes) (bytes.length - OneShot.validUpTo v bytes)
+        (by omega)
+      rw [hc] at h
+      simp only at h
+      have hb' : ∀ b ∈ bytes.drop (OneShot.validUpTo v bytes), b < 256 :=
+        fun b hb' => hb b (List.mem_of_mem_drop hb')
+      have := growLoopCap_no_panic v fuel fuel (famOfVariant v).init (bytes.drop (OneShot.validUpTo v bytes))
+        (c + slack.headD 0 - OneShot.validUpTo v bytes) slack.tail bs Reach.init hb'
+        (by rw [List.length_drop]; omega)
+      cases hg : growLoopCap v fuel fuel (famOfVariant v).init (bytes.drop (OneShot.validUpTo v bytes))
+        (c + slack.headD 0 - OneShot.validUpTo v bytes) slack.tail bs with
+      | panic => exact this hg
+      | diverges => rw [hg] at h; cases h
+      | ok p => rw [hg] at h; cases h
+  · simp only [hbo, Bool.false_eq_true, if_false] at h
+    obtain ⟨c, hc⟩ := firstCapacityNB_some v bytes.length hlen
+    rw [hc] at h
+    simp only at h
+    have := growLoopCap_no_panic v fuel fuel (famOfVariant v).init bytes (c + slack.headD 0) slack.tail bs
+      Reach.init hb hlen
+    cases hg : growLoopCap v fuel fuel (famOfVariant v).init bytes (c + slack.headD 0) slack.tail bs with
+    | panic => exact this hg
+    | diverges => rw [hg] at h; cases h
+    | ok p => rw [hg] at h; cases h
+
+/-- **(a) in total form for every admissible policy**: the capacity-aware model of
+`decode_without_bom_handling` returns, and what it returns is the streaming result -/
+theorem decode_without_bom_handling_cap_total (v : Gen.Variant) (bytes : List Nat) (fuel : Nat)
+    (slack : List Nat) (bs : List (List Budget)) (hb : ∀ b ∈ bytes, b < 256)
+    (hlen : 3 * bytes.length + 13 ≤ usizeMax) (hfuel : 10 * bytes.length + 10 ≤ fuel)
+    (hadm : DecodeAdmissible v bytes fuel slack bs) :
+    ∃ r, decodeWithoutBomHandlingCap v bytes fuel slack bs = .ok r ∧
+      r.text = streamText v bytes ∧ r.hadErrors = streamErr v bytes := by
+  cases h : decodeWithoutBomHandlingCap v bytes fuel slack bs with
+  | diverges => exact absurd h (decode_without_bom_handling_cap_returns v bytes fuel slack bs hb hfuel hadm)
+  | panic => have := decode_without_bom_handling_panic_length v bytes fuel slack bs hb h; omega
+  | ok r =>
+    exact ⟨r, rfl, decode_without_bom_handling_eq_stream v bytes fuel bs r
+      (decodeWithoutBomHandlingCap_ok v bytes fuel slack bs r h)⟩
+
+/-- the same for `decode` (BOM sniffing first) and `decode_with_bom_removal`: admissibility is that of
+the `decode_without_bom_handling` call they end in -/
+theorem decode_with_bom_removal_cap_total (v : Gen.Variant) (bytes : List Nat) (fuel : Nat)
+    (slack : List Nat) (bs : List (List Budget)) (hb : ∀ b ∈ bytes, b < 256)
+    (hlen : 3 * bytes.length + 13 ≤ usizeMax) (hfuel : 10 * bytes.length + 10 ≤ fuel)
+    (hadm : DecodeAdmissible v (withoutOwnBom v bytes) fuel slack bs) :
+    ∃ r, decodeWithBomRemovalCap v bytes fuel slack bs = .ok r ∧
+      decodeWithBomRemoval v bytes fuel bs = some r := by
+  have hl := withoutOwnBom_length_le v bytes
+  have hb' : ∀ b ∈ withoutOwnBom v bytes, b < 256 := by
+    intro b hm
+    unfold withoutOwnBom at hm
+    repeat' split at hm
+    all_goals first | exact hb b (List.mem_of_mem_drop hm) | exact hb b hm
+  obtain ⟨r, hr, _⟩ := decode_without_bom_handling_cap_total v (withoutOwnBom v bytes) fuel slack bs hb'
+    (by omega) (by omega) hadm
+  exact ⟨r, hr, decodeWithoutBomHandlingCap_ok v _ fuel slack bs r hr⟩
+
+theorem decode_cap_total (v : Gen.Variant) (bytes : List Nat) (fuel : Nat)
+    (slack : List Nat) (bs : List (List Budget)) (hb : ∀ b ∈ bytes, b < 256)
+    (hlen : 3 * bytes.length + 13 ≤ usizeMax) (hfuel : 10 * bytes.length + 10 ≤ fuel)
+    (hadm : match forBom bytes with
+      | some (u, n) => DecodeAdmissible (variantOfUsed v u) (bytes.drop n) fuel slack bs
+      | none => DecodeAdmissible v bytes fuel slack bs) :
+    ∃ r u, decodeCap v bytes fuel slack bs = .ok (r, u) ∧ decode v bytes fuel bs = some (r, u) := by
+  unfold decodeCap decode
+  cases hf : forBom bytes with
+  | none =>
+    rw [hf] at hadm
+    simp only at hadm ⊢
+    obtain ⟨r, hr, _⟩ := decode_without_bom_handling_cap_total v bytes fuel slack bs hb hlen hfuel hadm
+    refine ⟨r, .nominal, by rw [hr]; rfl, ?_⟩
+    rw [decodeWithoutBomHandlingCap_ok v _ fuel slack bs r hr]; rfl
+  | some p =>
+    obtain ⟨u, n⟩ := p
+    rw [hf] at hadm
+    simp only at hadm ⊢
+    have hl : (bytes.drop n).length ≤ bytes.length := by rw [List.length_drop]; omega
+    obtain ⟨r, hr, _⟩ := decode_without_bom_handling_cap_total (variantOfUsed v u) (bytes.drop n) fuel slack bs
+      (fun b hm => hb b (List.mem_of_mem_drop hm)) (by omega) (by omega) hadm
+    refine ⟨r, u, by rw [hr]; rfl, ?_⟩
+    rw [decodeWithoutBomHandlingCap_ok _ _ fuel slack bs r hr]; rfl
 
 /- PENDING: `oneshot_no_unreachable` at full strength —
 
